@@ -572,7 +572,17 @@ def setitem(I, frame, target_expr, base, idx, val, lineno=None):
         return
     if isinstance(base, SArr):
         if isinstance(idx, slice):
-            raise Unsupported("slice assignment")
+            if idx.start is not None or idx.step is not None or idx.stop is None or not isinstance(val, SArr):
+                raise Unsupported("slice assignment of this form")
+            m = idx_term(I, idx.stop)
+            # a[:m] = b : numpy needs len(b) == len(a[:m]) = min(m, len(a)) (m >= 0)
+            ok = z3.And(m >= 0, val.n == z3.If(m < base.n, m, base.n))
+            if not I.decide(ok):
+                raise PyRaise('ValueError', 'could not broadcast', lineno)
+            k = z3.Int(f"k!{I.run_id}_{next(I.fresh_counter)}")
+            old_a = base.a
+            base.a = z3.Lambda([k], z3.If(z3.And(k >= 0, k < m), z3.Select(val.a, k), z3.Select(old_a, k)))
+            return
         i = idx_term(I, idx)
         inb = z3.And(i >= 0, i < base.n)
         if base.unchecked or I.unchecked_stack[-1]:
@@ -987,6 +997,16 @@ def np_zeros(I, shape, **kw):
     raise Unsupported("np.zeros of symbolic shape")
 
 
+def np_arange(I, n, *rest, **kw):
+    if rest:
+        raise Unsupported("np.arange with start/stop")
+    if isinstance(n, int):
+        return PList([SV(k) for k in range(n)], 'vec')
+    nt = idx_term(I, n)
+    k = z3.Int(f"k!{I.run_id}_{next(I.fresh_counter)}")
+    return SArr(z3.Lambda([k], k), z3.If(nt > 0, nt, z3.IntVal(0)), 'uint', 'ndarray')
+
+
 def np_invert(I, x):
     x = lift(x)
     if x.is_bool:
@@ -1392,7 +1412,14 @@ def make_libs(I):
         I.mutated.append(base)
     I.note_write = note_write
 
+    I.external_calls = []
+
     def opaque_attr(base, attr):
+        if isinstance(base.tag, tuple) and base.tag[0] == 'external':
+            def rec(*a, **k):
+                I.external_calls.append((base.tag[1], attr, a, k))
+                return None
+            return Builtin(f"{base.tag[1]}.{attr}", rec)
         raise Unsupported(f"attribute {attr} of opaque {base.tag}")
     I.opaque_attr = opaque_attr
 
@@ -1413,7 +1440,7 @@ def make_libs(I):
         'zeros': L(np_zeros), 'invert': L(np_invert), 'logical_not': L(np_invert),
         'logical_and': Builtin('logical_and', lambda a, b: logical_and(I, a, b)),
         'logical_or': Builtin('logical_or', lambda a, b: _mk(I, z3.Or(lift(a).t, lift(b).t), lift(a), lift(b))),
-        'empty': L(np_empty),
+        'empty': L(np_empty), 'arange': L(np_arange),
         'inf': SV(float('inf')), 'pi': SV(z3.Real('PI')), 'nan': Opaque('nan'),
         'float64': Opaque('float64'), 'double': Opaque('float64'), 'uintp': Opaque('uintp'), 'int64': Opaque('int64'),
         'bool_': Opaque('bool'), 'int8': Opaque('int8'),
